@@ -255,3 +255,72 @@ func TestC19_R_F11_UnixFSDirectory(t *testing.T) {
 		}
 	}
 }
+
+// TestC19_P_UnixFSDirectoryManySeeds: sibling-name clashes in the default child generator need the same word to be drawn twice
+// in one directory (a few per thousand seeds), so this generator gets many cheap cases of its own.
+func TestC19_P_UnixFSDirectoryManySeeds(t *testing.T) {
+	ev := newEvid(t, "case = (seed, target size 2..6 KiB, bit-width 0/4) for UnixFSDirectory with its default child generator and for GenerateDirectory; oracle as TestC19_P_FixtureGenerators (read-back walk: unique non-empty sibling names, paths, contents, links); non-trivial = >= 2 directory levels; distinct by (generator, seed)")
+	rapid.Check(t, func(t *rapid.T) {
+		seed := rapid.Uint64Range(1, 1<<62).Draw(t, "seed")
+		size := rapid.IntRange(2048, 6144).Draw(t, "size")
+		bw := rapid.SampledFrom([]int{0, 0, 4}).Draw(t, "bitwidth")
+		which := rapid.SampledFrom([]string{"UnixFSDirectory", "UnixFSDirectory", "GenerateDirectory"}).Draw(t, "generator")
+		st := NewStore()
+		ls := st.LinkSystem()
+		var de testutil.DirEntry
+		var err error
+		rec := &recT{}
+		p, stack := safe(func() {
+			if which == "UnixFSDirectory" {
+				de, err = testutil.UnixFSDirectory(*ls, size, testutil.WithRandReader(&detReader{s: seed}), testutil.WithShardBitwidth(bw))
+			} else {
+				de = testutil.GenerateDirectory(rec, ls, &detReader{s: seed}, size, bw != 0)
+			}
+		})
+		if p != nil {
+			t.Fatalf("C19: %s (seed %d, size %d, bitwidth %d) panicked: %v\n%s", which, seed, size, bw, p, stack)
+		}
+		if err != nil {
+			t.Fatalf("C19: %s (seed %d, size %d, bitwidth %d) returned an error: %v", which, seed, size, bw, err)
+		}
+		stats := map[string]int{}
+		if cerr := c19Check(ls, de, de.Root, de.Path, true, stats, 0); cerr != nil {
+			t.Fatalf("C19: %s (seed %d, size %d, bitwidth %d): description does not match the stored DAG: %v", which, seed, size, bw, cerr)
+		}
+		ev.Case(fmt.Sprintf("%s %d", which, seed), stats["depth"] >= 2, "gen:"+which, fmt.Sprintf("depth:%d", stats["depth"]))
+		ev.Sample(map[string]any{"generator": which, "seed": seed, "size": size, "bitwidth": bw, "files": stats["files"], "dirs": stats["dirs"]})
+	})
+}
+
+// TestC19_P_LargeFileBatches: several files of 256 KiB and more generated one after another, all descriptions checked only after the
+// last one was generated (a description must not alias state that a later call reuses).
+func TestC19_P_LargeFileBatches(t *testing.T) {
+	ev := newEvid(t, "case = 2..4 UnixFSFile / GenerateFile calls with sizes 256..420 KiB in one process, descriptions checked after all calls; oracle = read-back of each stored file equals its description; every case non-trivial; distinct by (seed, sizes)")
+	rapid.Check(t, func(t *rapid.T) {
+		seed := rapid.Uint64Range(1, 1<<62).Draw(t, "seed")
+		r := &detReader{s: seed}
+		st := NewStore()
+		ls := st.LinkSystem()
+		var des []testutil.DirEntry
+		var sizes []int
+		for i := rapid.IntRange(2, 4).Draw(t, "files"); i > 0; i-- {
+			size := rapid.IntRange(256<<10, 420<<10).Draw(t, "size")
+			de, err := testutil.UnixFSFile(*ls, size, testutil.WithRandReader(r))
+			if err != nil {
+				t.Fatalf("C19: UnixFSFile(%d): %v", size, err)
+			}
+			des = append(des, de)
+			sizes = append(sizes, size)
+		}
+		for i, de := range des {
+			if err := c19Check(ls, de, de.Root, de.Path, true, map[string]int{}, 0); err != nil {
+				t.Fatalf("C19: file %d of %d (sizes %v, seed %d) checked after the whole batch was generated: %v", i+1, len(des), sizes, seed, err)
+			}
+			if len(de.Content) != sizes[i] {
+				t.Fatalf("C19: file %d described with %d bytes, asked for %d", i+1, len(de.Content), sizes[i])
+			}
+		}
+		ev.Case(fmt.Sprintf("%d %v", seed, sizes), true, fmt.Sprintf("files:%d", len(des)))
+		ev.Sample(map[string]any{"seed": seed, "sizes": sizes})
+	})
+}
